@@ -1,6 +1,6 @@
 (* DispatchRef.v — request codec for the reference selection / refgroup model. *)
 From Coq Require Import String.
-From GS Require Import GoSem Text Dispatch DispatchParsers DispatchScan RefOpts.
+From GS Require Import OptionArg GoSem Text Dispatch DispatchParsers DispatchScan RefOpts.
 Open Scope N_scope.
 
 Definition hexval2 (a b : N) : option N :=
@@ -162,6 +162,27 @@ Definition dispatch_ref (cmd : bytes) (args : list bytes) : option bytes :=
          | [e; r] => match re_of e, unhxb r with
                      | Some ee, Some rr => bool_b (search (wrap_new ee) rr)
                      | _, _ => err "bad argument" end
+         | _ => err "arity" end
+  else if beqb cmd (str "interp") then
+    (* interp <hex argument of --include/--exclude>: R:<hex regexp text> | G:<hex symbol> | G! | P:<hex prefix> *)
+    Some match args with
+         | [a] => match unhxb a with
+                  | Some aa => match interpret_flexibly aa with
+                               | ARegexp r => str "R:" ++ hxb r
+                               | AGroup g => str "G:" ++ hxb g
+                               | AMissingGroup => str "G!"
+                               | APrefix q => str "P:" ++ hxb q
+                               end
+                  | None => err "bad hex" end
+         | _ => err "arity" end
+  else if beqb cmd (str "rune") then
+    (* rune <hex bytes>: what utf8.DecodeRune makes of the beginning of the bytes: "<code point> <width>" *)
+    Some match args with
+         | [b] => match unhxb b with
+                  | Some bb => match rune_at bb 0 with
+                               | Some (c, w) => dec c ++ str " " ++ dec (N.of_nat w)
+                               | None => str "65533 0" end
+                  | None => err "bad hex" end
          | _ => err "arity" end
   else if beqb cmd (str "regexp_old") then
     Some match args with
